@@ -1346,6 +1346,20 @@ Section M7c.
     intros t H. unfold table_pre7 in H. destruct (fld (zs "tableId") t) as [v|]; [|discriminate]. destruct v; try discriminate. eauto.
   Qed.
 
+  Lemma mapM_some : forall {A B} (f : A -> res B) l, Forall (fun x => exists y, f x = Ok y) l -> exists ys, mapM f l = Ok ys.
+  Proof. intros A B f l H. destruct (mapM_ok f l H) as [ys [E _]]. eauto. Qed.
+
+  Lemma remove_act_ok : forall c, colp s c -> exists a, m7_remove_act (tables_by_id s) c = Ok a.
+  Proof.
+    intros c Hp. destruct (colp_fields s c Hp) as [[p [Hp1 [Hh [t [n [Hg Hn]]]]]] [[cn Hcn] _]].
+    unfold m7_remove_act, m7_tname. rewrite Hp1. cbn [bind]. unfold hash_key. rewrite Hh. cbn [bind].
+    rewrite Hg, Hn. cbn [bind as_str]. rewrite Hcn. cbn. eauto.
+  Qed.
+
+  Ltac step_ok tac :=
+    match goal with |- exists acts, bind ?A _ = _ =>
+      let H := fresh "Hs" in assert (H : exists r, A = Ok r) by tac; destruct H as [? ->]; cbn [bind] end.
+
   Theorem m7_body_total : pre7 summary_match s = true -> exists acts, m7 summary_match pick_table s = Ok acts.
   Proof.
     intros H. unfold pre7 in H. split_pre H.
@@ -1356,20 +1370,22 @@ Section M7c.
     { apply Forall_forall. intros t Hin. rewrite forallb_forall in P0. apply P0. exact Hin. }
     assert (Htv : Forall (fun kv => table_pre7 summary_match s (snd kv) = true) (tables_by_id s)).
     { unfold tables_by_id. apply (by_id_forall (fun t => table_pre7 summary_match s t = true)); [exact Htabs|constructor]. }
-    unfold m7, has_col. destruct Ht as [td1 Ht1]. destruct Hc as [td2 Hc2]. rewrite Ht1, Hc2. cbn [bind].
+    unfold m7, has_col. destruct Ht as [td1 Ht1]. destruct Hc as [td2 Hc2]. rewrite Ht1. cbn [bind]. rewrite Hc2. cbn [bind].
     rewrite (table_records_ok T_TABLES s (ex_intro _ td1 Ht1)). cbn [bind]. cbv zeta.
     fold (tables_by_id s).
-    destruct (index_by_ok (fld (zs "tableId")) (fun t : record => fst t) (map snd (tables_by_id s)) []) as [n2r En].
-    { apply Forall_forall. intros t Hin. apply in_map_iff in Hin. destruct Hin as [kv [<- Hkv]].
-      rewrite Forall_forall in Htv. destruct (table_pre7_tableId _ (Htv kv Hkv)) as [n Hn]. exists (VStr n). split; [exact Hn|reflexivity]. }
-    rewrite En. cbn [bind].
-    assert (Hn2r : name_to_ref_of s = n2r) by (unfold name_to_ref_of; rewrite En; reflexivity).
+    match goal with |- exists acts, bind ?A _ = _ =>
+      assert (Hidx : exists m, A = Ok m /\ name_to_ref_of s = m) end.
+    { match goal with |- exists m, ?A = _ /\ _ => destruct (index_by_ok (fld (zs "tableId")) (fun t : record => fst t) (map snd (tables_by_id s)) []) as [m Em] end.
+      { apply Forall_forall. intros t Hin. apply in_map_iff in Hin. destruct Hin as [kv [<- Hkv]].
+        rewrite Forall_forall in Htv. destruct (table_pre7_tableId _ (Htv kv Hkv)) as [n Hn]. exists (VStr n). split; [exact Hn|reflexivity]. }
+      exists m. split; [exact Em|]. unfold name_to_ref_of. rewrite Em. reflexivity. }
+    destruct Hidx as [n2r [En Hn2r]]. rewrite En. cbn [bind].
     rewrite (table_records_ok T_COLUMNS s (ex_intro _ td2 Hc2)). cbn [bind]. cbv zeta.
     fold (cols_by_id s).
     destruct (pair_index_rec_ok _ Hcols) as [by_tc [-> Htc]]. cbn [bind].
     rewrite <- Hn2r.
-    destruct (m7_loop_ok summary_match pick_table s by_tc (map snd (tables_by_id s))
-                (mk7 (map fst (name_to_ref_of s)) [] [] [] [] [])) as [st [-> [_ [Hrm [Hfu Hre]]]]]; auto.
+    match goal with |- exists acts, bind ?A _ = _ => assert (Hl : exists st, A = Ok st /\ inv7 s st) end.
+    { apply m7_loop_ok; auto.
     { apply Forall_forall. intros t Hin. apply in_map_iff in Hin. destruct Hin as [kv [<- Hkv]].
       rewrite Forall_forall in Htv. exact (Htv kv Hkv). }
     { unfold inv7. cbn [s7_names s7_remove s7_formulas s7_renames]. repeat split; try constructor.
@@ -1380,24 +1396,50 @@ Section M7c.
                   Forall (fun kv : val * rid => is_text (fst kv) = true) acc -> Forall (fun kv : val * rid => is_text (fst kv) = true) m).
       { induction l as [|t l IH]; intros acc m E Hl Hacc; cbn in E; [injection E as <-; exact Hacc|].
         inversion Hl as [|? ? [n Hn] Hrest]; subst. rewrite Hn in E. cbn in E. eapply IH; [exact E|exact Hrest|].
-        clear -Hacc. induction Hacc as [|[k v] acc Hk Ha IH]; cbn; [repeat constructor|].
+        clear -Hacc. induction Hacc as [|[k v] acc Hk Ha IH]; cbn [pd_set]; [repeat constructor|].
         destruct (py_eq (VStr n) k); constructor; auto. }
-      apply (proj1 (Forall_map fst (fun v => is_text v = true) n2r)).
+      apply (proj2 (Forall_map fst (fun v => is_text v = true) n2r)).
       eapply G; [exact En| |constructor].
       apply Forall_forall. intros t Hin. apply in_map_iff in Hin. destruct Hin as [kv [<- Hkv]].
-      rewrite Forall_forall in Htv. exact (table_pre7_tableId _ (Htv kv Hkv)). }
-    cbn [bind].
-    match goal with |- context [mapM ?f (s7_remove st)] => destruct (mapM_ok f (s7_remove st)) as [removes [-> _]] end.
-    { eapply Forall_impl; [|exact Hrm]. cbn beta. intros c Hp.
-      destruct (colp_fields s c Hp) as [[p [Hp1 [Hh [t [n [Hg Hn]]]]]] [[cn Hcn] _]].
-      rewrite Hp1. cbn [bind]. unfold hash_key. rewrite Hh. cbn [bind]. rewrite Hg, Hn. cbn [bind as_str]. rewrite Hcn. cbn. eauto. }
-    cbn [bind].
-    match goal with |- context [mapM ?f (s7_renames st)] => destruct (mapM_ok f (s7_renames st)) as [renames [-> _]] end.
-    { eapply Forall_impl; [|exact Hre]. cbn beta. intros tr [n Hn]. rewrite Hn. cbn. eauto. }
-    cbn [bind].
-    match goal with |- context [mapM ?f (s7_formulas st)] => destruct (mapM_ok f (s7_formulas st)) as [mods [-> _]] end.
-    { eapply Forall_impl; [|exact Hfu]. cbn beta. intros f Hp.
-      destruct (colp_fields s _ Hp) as [_ [[cn Hcn] _]]. rewrite Hcn. cbn. eauto. }
-    cbn [bind]. eauto.
+      rewrite Forall_forall in Htv. exact (table_pre7_tableId _ (Htv kv Hkv)). } }
+    destruct Hl as [st [-> [_ [Hrm [Hfu Hre]]]]]. cbn [bind].
+    step_ok ltac:(apply mapM_some; eapply Forall_impl; [|exact Hrm]; cbn beta; intros c Hp; apply remove_act_ok; exact Hp).
+    step_ok ltac:(apply mapM_some; eapply Forall_impl; [|exact Hre]; cbn beta; intros tr [n Hn];
+                  unfold m7_rename_act; rewrite Hn; cbn; eauto).
+    step_ok ltac:(apply mapM_some; eapply Forall_impl; [|exact Hfu]; cbn beta; intros f Hp;
+                  destruct (colp_fields s _ Hp) as [_ [[cn Hcn] _]]; unfold m7_modify_act; rewrite Hcn; cbn; eauto).
+    eauto.
   Qed.
 End M7c.
+
+(* ---------- migrations 4 and 39 ---------- *)
+Lemma m4_total : forall s, pre4 s = true -> exists acts s', m4 s = Ok acts /\ tds_apply_all acts s = Ok s' /\ J s'.
+Proof.
+  intros s H. unfold pre4 in H. split_pre H. pose proof (J_b_sound _ H) as HJ. pose proof (has_table_b_sound _ _ P) as Ht.
+  unfold m4. destruct Ht as [td Htd]. rewrite Htd.
+  eexists. edestruct good_all as [s' [E [HJ' _]]]; [exact HJ| |exists s'; split; [reflexivity|split; [exact E|exact HJ']]].
+  constructor; [split; [exists td; exact Htd|apply mkci_typed]|]. constructor; [|constructor].
+  split; [exists td; exact Htd|]. unfold rows_of. rewrite Htd. apply Forall_forall. auto.
+Qed.
+
+Lemma m39_total : forall s, pre39 s = true -> exists acts s', m39 s = Ok acts /\ tds_apply_all acts s = Ok s' /\ J s'.
+Proof.
+  intros s H. unfold pre39 in H. split_pre H. pose proof (J_b_sound _ H) as HJ.
+  pose proof (has_table_b_sound _ _ P0) as Ht. pose proof (has_table_b_sound _ _ P) as Hs.
+  unfold m39, has_col. destruct Ht as [td Htd]. destruct Hs as [sd Hsd]. rewrite Htd. cbn [bind].
+  assert (G : forall part1, Forall (good s) part1 ->
+              exists acts s', bind (match lookup T_SECTIONS (t_data s) with
+                                    | Some td0 => Ok (has (zs "description") (snd td0)) | None => Err KeyErr end)
+                                (fun has_desc => Ok (part1 ++ (if has_desc then [] else [add_column T_SECTIONS (zs "description") (zs "Text")])))
+                             = Ok acts /\ tds_apply_all acts s = Ok s' /\ J s').
+  { intros part1 Hp. rewrite Hsd. cbn [bind].
+    eexists. edestruct good_all as [s' [E [HJ' _]]]; [exact HJ| |exists s'; split; [reflexivity|split; [exact E|exact HJ']]].
+    apply Forall_app. split; [exact Hp|]. destruct (has (zs "description") (snd sd)); [constructor|].
+    constructor; [|constructor]. split; [exists sd; exact Hsd|apply mkci_typed]. }
+  destruct (has (zs "memo") (snd td)).
+  - cbn [bind]. apply G. constructor.
+  - rewrite (table_records_ok T_TRIGGERS s (ex_intro _ td Htd)). cbn [bind]. apply G.
+    repeat (constructor; [split; [exists td; exact Htd|apply mkci_typed]|]). constructor; [|constructor].
+    split; [exists td; exact Htd|]. apply Forall_forall. intros r Hr. apply in_map_iff in Hr. destruct Hr as [x [<- Hx]].
+    apply recs_ids_in_rows. exact Hx.
+Qed.
